@@ -503,9 +503,15 @@ func hasAnyTarget(spec *FuncSpec) bool {
 
 // otherCallers lists module functions (non-test) with a static call of target that are not in the allowed set.
 func (m *ModSets) otherCallers(target string, allowed []string) (extra []string, missing string) {
-	tgt := m.w.lookupFunc(target)
-	if tgt == nil {
-		return nil, target
+	var tgt *ssa.Function
+	anchor := ""
+	if strings.HasPrefix(target, "append:") {
+		anchor = strings.TrimPrefix(target, "append:")
+	} else {
+		tgt = m.w.lookupFunc(target)
+		if tgt == nil {
+			return nil, target
+		}
 	}
 	ok := map[*ssa.Function]bool{}
 	for _, a := range allowed {
@@ -522,8 +528,13 @@ func (m *ModSets) otherCallers(target string, allowed []string) (extra []string,
 		for _, b := range f.Blocks {
 			for _, ins := range b.Instrs {
 				if c, isCall := ins.(ssa.CallInstruction); isCall {
-					if c.Common().StaticCallee() == tgt {
+					if tgt != nil && c.Common().StaticCallee() == tgt {
 						extra = append(extra, funcKey(f))
+					}
+					if anchor != "" {
+						if b, isB := c.Common().Value.(*ssa.Builtin); isB && b.Name() == "append" && len(c.Common().Args) > 0 && appendAnchor(c.Common().Args[0]) == anchor {
+							extra = append(extra, funcKey(f))
+						}
 					}
 				}
 			}
